@@ -410,7 +410,8 @@ def gen_corpus(corpus, tier, n_shards=None, features=("serde-json-impl",), exclu
     name = f"{corpus}{tier[0]}"
     files, crates = e2core.corpus_files(name, cases, n_shards, repo=REPO, verif=VERIF,
                                          features=getattr(mod, "FEATURES", features), exclude=exclude,
-                                         extra_deps=getattr(mod, "EXTRA_DEPS", ""))
+                                         extra_deps=getattr(mod, "EXTRA_DEPS", ""),
+                                         crate_alias=getattr(mod, "CRATE_ALIAS", None))
     e2core.sync_tree(os.path.join(E2ROOT, name), files)
     # root manifest lists every corpus directory present
     members = []
@@ -429,8 +430,9 @@ def gen_corpus(corpus, tier, n_shards=None, features=("serde-json-impl",), exclu
     return name, crates, cases
 
 
-def build_shards(crates):
-    """Build shard crates. Returns (binaries, failing: {case_id: first error message})."""
+def build_shards(crates, unattributed=None):
+    """Build shard crates. Returns (binaries, failing: {case_id: first error message}). Errors outside
+    the case files are a machinery error unless the caller collects them (list `unattributed`)."""
     cmd = ["cargo", "build", "--offline", "--message-format=json"]
     for c in crates:
         cmd += ["-p", c]
@@ -464,6 +466,11 @@ def build_shards(crates):
                     failing.setdefault(f, msg.get("rendered", msg.get("message", ""))[:1500])
             else:
                 other_errors.append(msg.get("rendered", msg.get("message", ""))[:1500])
+    if unattributed is not None:
+        unattributed.extend(other_errors)
+        if p.returncode != 0 and not failing and not other_errors:
+            raise Machinery("building generated shards failed without a compiler error:\n" + p.stderr[-3000:])
+        return bins, failing
     if p.returncode != 0 and not failing:
         raise Machinery("building generated shards failed without an error attributable to a case:\n"
                         + "\n".join(other_errors)[-4000:] + p.stderr[-3000:])
@@ -488,6 +495,18 @@ def run_shards(bins, crates, prop, slices_per_shard=1, timeout=3600):
     if m["machinery_errors"]:
         raise Machinery("oracle could not decide (unknown construct): " + "; ".join(m["machinery_errors"][:5]))
     return m
+
+
+def e2_compile_only(corpus, tier):
+    """Generate a corpus and hand it to rustc once; every compiler error counts (no exclusion rounds).
+    Returns (number of cases, {case id or "prelude#k": first error})."""
+    name, crates, cases = gen_corpus(corpus, tier)
+    other = []
+    bins, failing = build_shards(crates, unattributed=other)
+    errors = dict(failing)
+    for k, msg in enumerate(sorted(set(other))[:20]):
+        errors[f"prelude#{k}"] = msg
+    return len(cases), errors
 
 
 def e2_build(corpus, tier, features=("serde-json-impl",), max_rounds=3):
